@@ -263,18 +263,17 @@ impl Disconnect {
         if self.reason_code == DisconnectReasonCode::NormalDisconnection
             && self.properties.is_none()
         {
-            return 2; // Packet type + 0x00
+            return 0; // reason code and properties are omitted
         }
 
-        let mut length = 0;
+        let mut length = 1; // Disconnect Reason Code
 
         if let Some(properties) = &self.properties {
-            length += 1; // Disconnect Reason Code
-
             let properties_len = properties.len();
             let properties_len_len = len_len(properties_len);
             length += properties_len_len + properties_len;
         } else {
+            // just 1 byte representing 0 len properties
             length += 1;
         }
 
@@ -283,10 +282,6 @@ impl Disconnect {
 
     pub fn size(&self) -> usize {
         let len = self.len();
-        if len == 2 {
-            return len;
-        }
-
         let remaining_len_size = len_len(len);
 
         1 + remaining_len_size + len
@@ -325,12 +320,11 @@ impl Disconnect {
 
         let length = self.len();
 
-        if length == 2 {
-            buffer.put_u8(0x00);
-            return Ok(length);
-        }
-
         let len_len = write_remaining_length(buffer, length)?;
+
+        if length == 0 {
+            return Ok(1 + len_len);
+        }
 
         buffer.put_u8(self.reason_code as u8);
 
